@@ -1075,6 +1075,16 @@ class Interp:
                 self.idx.cache[key] = target
         if target[0] == "local":
             return self.run_fn(target[1], args)
+        if target[0] == "local_deref":
+            # blanket impls for references (PartialEq for &A etc.) forward to the pointee's impl
+            n = target[2]
+            peeled = []
+            for a in args:
+                for _ in range(n):
+                    if isinstance(a, Ref) and isinstance(a.get(), Ref):
+                        a = a.get()
+                peeled.append(a)
+            return self.run_fn(target[1], peeled)
         if target[0] == "model":
             self.models_used.add(target[2])
             self.w.tick(5)
@@ -1096,6 +1106,9 @@ class Interp:
             else:
                 f = self.idx.find_method(tsegs, trait, desc["segs"], selfty)
                 if f:
+                    nref = len(re.findall(r"&", selfty.split("<")[0]))
+                    if nref and trait in ("PartialEq", "PartialOrd", "Ord", "Eq", "Hash", "Display", "Debug"):
+                        return ("local_deref", f, nref)
                     return ("local", f)
             # generic parameter / dynamic dispatch on the receiver
             if re.fullmatch(r"_*[A-Z][A-Za-z0-9]?", tsegs[-1]) and tsegs[-1] not in self.idx.local_types and len(tsegs) == 1 \
